@@ -28,7 +28,8 @@ BARES = {"w1": ["Foo", "/Path/To/123.txt", "x_1.y_2", "A+/-B", "file.txt", "3d",
          "w2": ["LowToHigh", "/a b/c d.csv", "_x", "a.b.c", "data/in.csv", "123abc", "Not True"],
          # unquoted strings containing a colon are only written as whole argument values (inside a list "a:b" is a key:value pair)
          "w3": ["C:\\path\\to\\thing", "http://host/x", "a:b", "D:\\x y\\z.nc", "k:v1", "x:/y"]}
-KEYS = {"k1": ["Color", "units", "Key_1"], "k2": ["DisplayName", "k", "Z9"]}
+# (keys that are identifiers, and keys that only the plain-string token can deliver)
+KEYS = {"k1": ["Color", "units", "Key_1", "a/b", "%cover"], "k2": ["DisplayName", "k", "Z9", "x.y", "p%"]}
 # unquoted strings the documentation shows but the lexer design cannot deliver (known-finding classes)
 BARE_MULTIWORD = ["This is a string.", "Hello World", "two words"]
 BARE_DOTNUM = ["file1.5", "abc.123", "v2.0"]
@@ -299,6 +300,8 @@ def corruptions(toks):
             out.append(("dup-comma", toks[:k + 1] + toks[k:]))
         if t[0] in ("LP", "LB"):
             out.append(("lead-comma", toks[:k + 1] + [["COMMA", ""]] + toks[k + 1:]))
+        if t[0] == "COMMA" and k + 2 < n and toks[k + 1][0] in ("INT", "FLOAT", "BOOL", "BARE", "QSTR", "ID") and toks[k + 2][0] in ("COMMA", "RB"):
+            out.append(("mix-pair", toks[:k + 1] + [["BARE", "k1"], ["COLON", ""]] + toks[k + 1:]))
         if k < n - 1 and not (t[0] == "RP" and toks[k + 1][0] == "ID"):
             out.append(("truncate", toks[:k + 1]))
     return out
